@@ -51,6 +51,16 @@ def items(tier, seed):
     for m in ms:
         for meth in LM.METHODS + LM.EXTRA_METHODS:
             its.append(("mm", (m, meth)))
+    # the solve under test as the SECOND solve of a problem object edited in between
+    hmeths = ["auto", "SLSQP"] if tier == "quick" else LM.METHODS + LM.EXTRA_METHODS
+    for im, m in enumerate(LM.solve_models(tier)):
+        if tier == "quick" and im % 3 != 1:
+            continue
+        for h in LM.HISTS:
+            if h in ("add-last", "add-last-list", "readd-same-objective") and not m["cons"]:
+                continue
+            for meth in hmeths:
+                its.append(("mm", (m, meth, h)))
     its.sort(key=lambda it: -(len(it[1][0]["cons"]) * 10 + (5 if it[1][1] in ("SLSQP", "auto") else 0)) if it[0] == "mm" else -1000)
     return its
 
@@ -68,17 +78,18 @@ def K_term(x):
     return term(x)
 
 
-def check_mm(model, method, planted=False):
+def check_mm(model, method, planted=False, hist=None):
     from vf.engine import smt
     from vf.engine.sym import SReal, SymbolicConcretisation
     res = []
     names = LM.model_names(model)
     allv = names["vars"] + names["syms"] + names["params"]
     val = K.sym_val(allv)
-    tag = f"{model['tag']}/{method}"
+    tag = f"{model['tag']}/{method}" + (f"/after {hist}" if hist else "")
     budget = 2500 if _TIER == "quick" else 20000
+    observe = (lambda: SV.solve_observe(model, val, method)) if hist is None else (lambda: SV.solve_observe_hist(model, val, method, hist))
     n_opt = 0
-    for dec, labels, pc, o in K.explore(lambda: SV.solve_observe(model, val, method), max_paths=budget):
+    for dec, labels, pc, o in K.explore(observe, max_paths=budget):
         if o.exc is not None:
             if isinstance(o.exc, SymbolicConcretisation):
                 res.append(harness_error(f"concretisation in solve: {o.exc}", item=tag))
@@ -94,7 +105,7 @@ def check_mm(model, method, planted=False):
         missing = [n for n in mnames if n not in sol.values and _mentioned(model, n)]
         # constraints
         allmodel = allv + [f"m{k}_x{i}" for k in (1, 2, 3) for i in range(12)] + [f"lp{k}_x{i}" for k in (1, 2) for i in range(12)]
-        payload = dict(kind="optimal", model=K.enc(model), method=method, labels=[list(l) for l in labels], route=route)
+        payload = dict(kind="optimal", model=K.enc(model), method=method, labels=[list(l) for l in labels], route=route, hist=hist)
         for k, (sense, v, dom) in enumerate(SV.user_constraint_values(model, values)):
             tol = _tol(v)
             if planted:
@@ -130,9 +141,9 @@ def _mentioned(model, n):
 def check(item):
     kind, payload = item
     if kind == "mm":
-        m, meth = payload
+        m, meth = payload[:2]
         try:
-            return check_mm(m, meth)
+            return check_mm(m, meth, hist=payload[2] if len(payload) > 2 else None)
         except Exception as e:  # noqa: BLE001
             import traceback
             return [harness_error(f"{type(e).__name__}: {e}", item=f"{m['tag']}/{meth}", tb=traceback.format_exc()[-1500:])]
@@ -200,7 +211,25 @@ def replay(payload):
         import types
         return types.SimpleNamespace(x=x, fun=float(np.dot(c, x)), success=(st == 0), status=st, message="scripted", nit=1)
 
-    p, b = LM.build_model(model, val)
+    if payload.get("hist"):
+        p, b, finish = LM.build_model_staged(model, val, payload["hist"])
+        import types as _t
+        old_m, old_l = ss.minimize, scipy.optimize.linprog
+        ss.minimize = lambda fun, x0, **kw: _t.SimpleNamespace(x=np.array(x0, dtype=float), fun=fun(np.array(x0, dtype=float)), success=False, message="stub", nit=0)
+        scipy.optimize.linprog = lambda c, **kw: _t.SimpleNamespace(x=None, fun=None, success=False, status=4, message="stub", nit=0)
+        import warnings as _w
+        try:
+            with _w.catch_warnings():
+                _w.simplefilter("ignore")
+                try:
+                    p.solve(method=method)
+                except Exception:  # noqa: BLE001
+                    pass
+        finally:
+            ss.minimize, scipy.optimize.linprog = old_m, old_l
+        finish()
+    else:
+        p, b = LM.build_model(model, val)
     old_m, old_l = ss.minimize, scipy.optimize.linprog
     ss.minimize, scipy.optimize.linprog = fake_min, fake_lp
     import warnings
